@@ -206,9 +206,18 @@ impl<'a> Gen<'a> {
             1 => dim,
             _ => rng.range(1, dim as u64) as u32,
         };
-        let mut h = rng.below(24) as u32;
-        let mi = rng.below(60) as u32;
-        let s = rng.below(60) as u32;
+        // every component at its boundaries (midnight encodes as BCD zero = an empty TLV value)
+        let comp = |rng: &mut Rng, max: u64| -> u32 {
+            match rng.below(5) {
+                0 => 0,
+                1 => max as u32,
+                2 => 1,
+                _ => rng.below(max + 1) as u32,
+            }
+        };
+        let mut h = comp(rng, 23);
+        let mi = comp(rng, 59);
+        let s = comp(rng, 59);
         if rng.chance(self.cfg.stray_pct, 100) {
             match rng.below(3) {
                 0 => d = dim + 1,
